@@ -301,6 +301,33 @@ Proof. exact bsearch_ssleft. Qed.
 Print Assumptions binary_search_is_prefix_count.
 
 (* ------------------------------------------------------------------ *)
+(* T14 (the complete textbook reference, every real evaluation point, d dimensions, any mix).
+   [ref_eval axes js G] (definitions in C15/Proofs.v) is the recursion
+     nearest axis : continue with the slice at j          (j = the given closest node)
+     linear axis  : [ref_lin c x (fun i => rest at slice i)] where
+        ref_lin c x g = (1 - (c_0 - x)/(c_1 - c_0)) * g 0                     if x < c_0
+                      = (1 - (x - c_last)/(c_last - c_prev)) * g (n-1)        if x > c_last
+                      = (1-t) * g i + t * g (i+1),  i = ref_cell c x,  t = (x - c_i)/(c_{i+1} - c_i)   otherwise
+     with ref_cell found by an INDEPENDENT search (number of leading nodes <= x, minus one, capped at n-2).
+   The code's index search + weight/edge rules + 2^d corner sum equal this reference everywhere. *)
+Theorem peraxis_equals_textbook_reference : forall (axes : list axis) (js : list nat) (G : list nat -> R),
+  Forall2 (fun t j => Asc (a_c t) /\
+                      match a_s t with
+                      | SNearest => closest (a_c t) (a_x t) j
+                      | SLinear => (2 <= length (a_c t))%nat
+                      end) axes js ->
+  peraxis_point (map a_s axes) (map a_c axes) (wrapped (shape_of axes) G) (map a_x axes) = ref_eval axes js G.
+Proof. exact peraxis_textbook_d. Qed.
+Print Assumptions peraxis_equals_textbook_reference.
+
+(* the independent search does find a cell containing x inside the hull *)
+Theorem reference_cell_contains_point : forall (c : list R) x, (2 <= length c)%nat ->
+  nth 0 c 0 <= x <= nth (length c - 1) c 0 ->
+  (S (ref_cell c x) < length c)%nat /\ nth (ref_cell c x) c 0 <= x <= nth (S (ref_cell c x)) c 0.
+Proof. exact ref_cell_contains. Qed.
+Print Assumptions reference_cell_contains_point.
+
+(* ------------------------------------------------------------------ *)
 (* The whole call, its recorded defects, and the provable restrictions.
 
    [interp_call var kind schemes cvs dtype values input outarg] (C15/Call.v) is the public
